@@ -283,481 +283,367 @@ theorem Settled.of_sub {s s' : State} (h : Settled s) (hs : Sub s s') : Settled 
   obtain ⟨req, hm0, _, hsub⟩ := hs.2 p req' hm
   exact hs.1 r (h p req hm0 r (hsub r hr))
 
-/-! ### one iteration of the outer loop -/
+/-! ### the outer loop (`scan`)
 
-section body
-variable {s s' : State} {p : Peer} {q : List Peer} {req : Req}
+During a scan the queue of the service is split into `sk` (the peers visited and skipped, in their
+order) and `todo` (the peers still to visit): the invariant is stated on `sk ++ todo`. -/
 
-theorem peerBody_dead (h : peerBody s p q req = (s', g)) : s'.dead = s.dead := by
-  unfold peerBody at h
-  simp only at h
-  split at h <;> (simp only [Prod.mk.injEq] at h; obtain ⟨h1, _⟩ := h; subst h1; rfl)
+/-- the state as the invariant sees it while `todo` remains to be scanned -/
+def vstate (s : State) (sk todo : List Peer) : State := { s with queue := sk ++ todo }
 
-theorem peerBody_some {ch : Ch} {r : Room} (h : peerBody s p q req = (s', some (ch, r))) :
-    r ∉ s.locked ∧ s'.locked = r :: s.locked ∧ s'.avail = s.avail - 1 ∧ ch = req.ch ∧
-      ch ∉ s.dead ∧ r ∈ req.rooms := by
-  unfold peerBody at h
-  simp only at h
-  split at h
-  · rename_i r' hres
-    simp only [Prod.mk.injEq, Option.some.injEq] at h
-    obtain ⟨h1, h2, h3⟩ := h
-    subst h1 h2 h3
-    have hrl : roomLoop s.locked (!s.dead.contains req.ch) req.rooms.length req.rooms
-        = ((roomLoop s.locked (!s.dead.contains req.ch) req.rooms.length req.rooms).1, some r') := by
-      rw [← hres]
-    obtain ⟨a, b, c, _⟩ := roomLoop_some hrl
-    refine ⟨a, rfl, rfl, rfl, ?_, c⟩
-    simpa using b
-  · simp at h
+theorem mem_uniq {l : List (Peer × Req)} (hn : (keys l).Nodup) {p : Peer} {r1 r2 : Req}
+    (h1 : (p, r1) ∈ l) (h2 : (p, r2) ∈ l) : r1 = r2 := by
+  induction l with
+  | nil => cases h1
+  | cons a t ih =>
+    simp only [keys, List.map_cons, List.nodup_cons] at hn
+    rcases List.mem_cons.mp h1 with e1 | e1 <;> rcases List.mem_cons.mp h2 with e2 | e2
+    · rw [← e1] at e2; exact ((Prod.mk.inj e2).2).symm
+    · exact absurd (List.mem_map_of_mem (f := Prod.fst) e2) (by rw [← e1] at hn; exact hn.1)
+    · exact absurd (List.mem_map_of_mem (f := Prod.fst) e1) (by rw [← e2] at hn; exact hn.1)
+    · exact ih hn.2 e1 e2
 
-theorem peerBody_none (h : peerBody s p q req = (s', none)) :
-    s'.locked = s.locked ∧ s'.avail = s.avail := by
-  unfold peerBody at h
-  simp only at h
-  split at h
-  · simp at h
-  · simp only [Prod.mk.injEq, and_true] at h; subst h; exact ⟨rfl, rfl⟩
+section scan
+variable {max : Nat}
 
-/-- the requests after an iteration: untouched for the other peers, shrunk for `p` -/
-theorem peerBody_reqs {g : Option (Ch × Room)} (h : peerBody s p q req = (s', g))
-    {p' : Peer} {req' : Req} (hm : (p', req') ∈ s'.reqs) :
+/-- the requests after the turn of peer `p` whose request was `req` and whose rooms became `rooms'` -/
+def turnReqs (s : State) (p : Peer) (req : Req) (rooms' : List Room) : List (Peer × Req) :=
+  if rooms'.isEmpty then erase p s.reqs else (p, { req with rooms := rooms' }) :: erase p s.reqs
+
+theorem turnReqs_mem {s : State} {p : Peer} {req : Req} {rooms' : List Room} {p' : Peer} {req' : Req}
+    (hsub : ∀ x ∈ rooms', x ∈ req.rooms) (hm : (p', req') ∈ turnReqs s p req rooms') :
     (p' ≠ p ∧ (p', req') ∈ s.reqs) ∨
-      (p' = p ∧ req'.ch = req.ch ∧ req'.rooms ≠ [] ∧ ∀ x ∈ req'.rooms, x ∈ req.rooms) := by
-  unfold peerBody at h
-  simp only at h
-  have key : ∀ reqs'' : List (Peer × Req),
-      reqs'' = (if (roomLoop s.locked (!s.dead.contains req.ch) req.rooms.length req.rooms).1.isEmpty
-        then erase p s.reqs
-        else (p, { req with rooms := (roomLoop s.locked (!s.dead.contains req.ch) req.rooms.length req.rooms).1 })
-          :: erase p s.reqs) →
-      (p', req') ∈ reqs'' →
-      (p' ≠ p ∧ (p', req') ∈ s.reqs) ∨
-      (p' = p ∧ req'.ch = req.ch ∧ req'.rooms ≠ [] ∧ ∀ x ∈ req'.rooms, x ∈ req.rooms) := by
-    intro reqs'' he hm
-    subst he
-    split at hm
-    · have := mem_erase.mp hm
+      (p' = p ∧ req'.ch = req.ch ∧ req'.rooms = rooms' ∧ rooms' ≠ [] ∧ ∀ x ∈ req'.rooms, x ∈ req.rooms) := by
+  unfold turnReqs at hm
+  split at hm
+  · have := mem_erase.mp hm
+    exact Or.inl ⟨this.2, this.1⟩
+  · rename_i hne
+    rcases List.mem_cons.mp hm with h1 | h1
+    · simp only [Prod.mk.injEq] at h1
+      obtain ⟨h1, h2⟩ := h1
+      subst h1 h2
+      refine Or.inr ⟨rfl, rfl, rfl, ?_, hsub⟩
+      intro he; rw [he] at hne; simp at hne
+    · have := mem_erase.mp h1
       exact Or.inl ⟨this.2, this.1⟩
-    · rename_i hne
-      rcases List.mem_cons.mp hm with h1 | h1
-      · simp only [Prod.mk.injEq] at h1
-        obtain ⟨h1, h2⟩ := h1
-        subst h1 h2
-        refine Or.inr ⟨rfl, rfl, ?_, ?_⟩
-        · intro he; simp only at he; rw [he] at hne; simp at hne
-        · intro x hx
-          exact roomLoop_sub (g := (roomLoop s.locked (!s.dead.contains req.ch) req.rooms.length req.rooms).2) rfl x hx
-      · have := mem_erase.mp h1
-        exact Or.inl ⟨this.2, this.1⟩
-  split at h <;>
-    (simp only [Prod.mk.injEq] at h; obtain ⟨h1, _⟩ := h; subst h1; exact key _ rfl hm)
 
-theorem peerBody_sub {g : Option (Ch × Room)} (h : peerBody s p q req = (s', g))
-    (hl : lookup p s.reqs = some req) : Sub s s' := by
-  constructor
-  · intro r hr
-    cases g with
-    | none => rw [(peerBody_none h).1]; exact hr
-    | some cr =>
-      obtain ⟨ch, r'⟩ := cr
-      rw [(peerBody_some h).2.1]; exact List.mem_cons_of_mem _ hr
-  · intro p' req' hm
-    rcases peerBody_reqs h hm with ⟨_, h2⟩ | ⟨h1, h2, _, h4⟩
-    · exact ⟨req', h2, rfl, fun _ hx => hx⟩
-    · subst h1; exact ⟨req, lookup_some_mem hl, h2, h4⟩
+theorem turnReqs_keys {s : State} {p : Peer} {req : Req} {rooms' : List Room} {p' : Peer}
+    (hne : p' ≠ p) : p' ∈ keys (turnReqs s p req rooms') ↔ p' ∈ keys s.reqs := by
+  unfold turnReqs
+  split
+  · rw [keys_erase]; exact ⟨fun h => h.1, fun h => ⟨h, hne⟩⟩
+  · simp only [keys, List.map_cons, List.mem_cons]
+    constructor
+    · rintro (h | h)
+      · exact absurd h hne
+      · exact (keys_erase.mp h).1
+    · intro h; exact Or.inr (keys_erase.mpr ⟨h, hne⟩)
 
-/-- the queue after an iteration -/
-theorem peerBody_queue {g : Option (Ch × Room)} (h : peerBody s p q req = (s', g)) :
-    (s'.queue = q ∧ p ∉ keys s'.reqs) ∨ (s'.queue = q ++ [p] ∧ p ∈ keys s'.reqs) := by
-  unfold peerBody at h
-  simp only at h
+theorem turnReqs_key_self {s : State} {p : Peer} {req : Req} {rooms' : List Room} :
+    p ∈ keys (turnReqs s p req rooms') ↔ rooms' ≠ [] := by
+  unfold turnReqs
   have hk : p ∉ keys (erase p s.reqs) := fun hm => (keys_erase.mp hm).2 rfl
-  split at h <;>
-    (simp only [Prod.mk.injEq] at h; obtain ⟨h1, _⟩ := h; subst h1; simp only
-     split
-     · exact Or.inl ⟨rfl, hk⟩
-     · exact Or.inr ⟨rfl, by simp [keys]⟩)
+  split
+  · rename_i he
+    constructor
+    · intro h; exact absurd h hk
+    · intro h; exact absurd (List.isEmpty_iff.mp he) h
+  · rename_i he
+    constructor
+    · intro _ h; rw [h] at he; simp at he
+    · intro _; simp [keys]
 
-theorem peerBody_keys {g : Option (Ch × Room)} (h : peerBody s p q req = (s', g)) {p' : Peer}
-    (hne : p' ≠ p) : p' ∈ keys s'.reqs ↔ p' ∈ keys s.reqs := by
-  unfold peerBody at h
-  simp only at h
-  split at h <;>
-    (simp only [Prod.mk.injEq] at h; obtain ⟨h1, _⟩ := h; subst h1; simp only
-     split
-     · rw [keys_erase]; exact ⟨fun h => h.1, fun h => ⟨h, hne⟩⟩
-     · simp only [keys, List.map_cons, List.mem_cons]
-       constructor
-       · rintro (h | h)
-         · exact absurd h hne
-         · exact (keys_erase.mp h).1
-       · intro h; exact Or.inr (keys_erase.mpr ⟨h, hne⟩))
-
-theorem peerBody_keysNodup {g : Option (Ch × Room)} (h : peerBody s p q req = (s', g))
-    (hn : (keys s.reqs).Nodup) : (keys s'.reqs).Nodup := by
-  unfold peerBody at h
-  simp only at h
+theorem turnReqs_nodup {s : State} {p : Peer} {req : Req} {rooms' : List Room}
+    (hn : (keys s.reqs).Nodup) : (keys (turnReqs s p req rooms')).Nodup := by
+  unfold turnReqs
   have hk : p ∉ keys (erase p s.reqs) := fun hm => (keys_erase.mp hm).2 rfl
-  split at h <;>
-    (simp only [Prod.mk.injEq] at h; obtain ⟨h1, _⟩ := h; subst h1; simp only
-     split
-     · exact keys_erase_nodup hn
-     · simp only [keys, List.map_cons, List.nodup_cons]
-       exact ⟨hk, keys_erase_nodup hn⟩)
+  split
+  · exact keys_erase_nodup hn
+  · simp only [keys, List.map_cons, List.nodup_cons]
+    exact ⟨hk, keys_erase_nodup hn⟩
 
-theorem peerBody_inv {max : Nat} {g : Option (Ch × Room)} (hi : Inv max s) (hq : s.queue = p :: q)
-    (ha : 0 < s.avail) (h : peerBody s p q req = (s', g)) : Inv max s' := by
-  have hqn : (p :: q).Nodup := hq ▸ hi.queueNodup
-  have hpq : p ∉ q := (List.nodup_cons.mp hqn).1
-  have hqq : q.Nodup := (List.nodup_cons.mp hqn).2
-  have hqueueNodup : s'.queue.Nodup := by
-    rcases peerBody_queue h with ⟨h1, _⟩ | ⟨h1, _⟩
-    · rw [h1]; exact hqq
-    · rw [h1]
-      refine List.nodup_append.mpr ⟨hqq, by simp, ?_⟩
-      intro a ha b hb
-      simp only [List.mem_singleton] at hb
-      subst hb; intro e; subst e; exact hpq ha
-  have hqueueKeys : ∀ p', p' ∈ s'.queue ↔ p' ∈ keys s'.reqs := by
-    intro p'
-    by_cases hpp : p' = p
-    · subst hpp
-      rcases peerBody_queue h with ⟨h1, h2⟩ | ⟨h1, h2⟩
-      · rw [h1]; exact ⟨fun h => absurd h hpq, fun h => absurd h h2⟩
-      · rw [h1]; exact ⟨fun _ => h2, fun _ => by simp⟩
-    · rw [peerBody_keys h hpp, ← hi.queueKeys, hq]
-      rcases peerBody_queue h with ⟨h1, _⟩ | ⟨h1, _⟩
-      · rw [h1]; simp [hpp]
-      · rw [h1]; simp [hpp]
-  cases g with
-  | none =>
-    obtain ⟨h1, h2⟩ := peerBody_none h
-    exact ⟨h1 ▸ hi.lockedNodup, by rw [h1, h2]; exact hi.count, peerBody_keysNodup h hi.keysNodup,
-      hqueueNodup, hqueueKeys⟩
-  | some cr =>
-    obtain ⟨ch, r⟩ := cr
-    obtain ⟨h1, h2, h3, _⟩ := peerBody_some h
-    refine ⟨?_, ?_, peerBody_keysNodup h hi.keysNodup, hqueueNodup, hqueueKeys⟩
-    · rw [h2]; exact List.nodup_cons.mpr ⟨h1, hi.lockedNodup⟩
-    · rw [h2, h3]; have := hi.count; simp only [List.length_cons]; omega
+theorem turnReqs_sub {s : State} {p : Peer} {req : Req} {rooms' : List Room}
+    (hl : lookup p s.reqs = some req) (hsub : ∀ x ∈ rooms', x ∈ req.rooms) :
+    ∀ p' req', (p', req') ∈ turnReqs s p req rooms' → ∃ req0, (p', req0) ∈ s.reqs ∧ req'.ch = req0.ch ∧
+      ∀ x ∈ req'.rooms, x ∈ req0.rooms := by
+  intro p' req' hm
+  rcases turnReqs_mem hsub hm with ⟨_, h2⟩ | ⟨h1, h2, _, _, h5⟩
+  · exact ⟨req', h2, rfl, fun _ hx => hx⟩
+  · subst h1; exact ⟨req, lookup_some_mem hl, h2, h5⟩
 
-end body
+/-- the invariant on the virtual queue after a turn without grant -/
+theorem turn_none_inv {s : State} {p : Peer} {q sk : List Peer} {req : Req} {rooms' : List Room}
+    (hi : Inv max (vstate s sk (p :: q))) :
+    Inv max (vstate { s with reqs := turnReqs s p req rooms' }
+      (if rooms'.isEmpty then sk else sk ++ [p]) q) := by
+  have hqn : (sk ++ p :: q).Nodup := hi.queueNodup
+  have hkeys := hi.queueKeys
+  simp only [vstate] at hkeys
+  refine ⟨hi.lockedNodup, hi.count, turnReqs_nodup hi.keysNodup, ?_, ?_⟩
+  · simp only [vstate]
+    split
+    · exact List.nodup_append.mpr ⟨(List.nodup_append.mp hqn).1, (List.nodup_cons.mp (List.nodup_append.mp hqn).2.1).2,
+        fun a ha b hb => (List.nodup_append.mp hqn).2.2 a ha b (List.mem_cons_of_mem _ hb)⟩
+    · rw [List.append_assoc]; exact hqn
+  · intro p'
+    simp only [vstate]
+    by_cases e : p' = p
+    · subst e
+      rw [turnReqs_key_self]
+      have hnp : p' ∉ sk := by
+        intro h
+        exact (List.nodup_append.mp hqn).2.2 p' h p' List.mem_cons_self rfl
+      have hnq : p' ∉ q := (List.nodup_cons.mp (List.nodup_append.mp hqn).2.1).1
+      split
+      · rename_i he
+        constructor
+        · intro h; rcases List.mem_append.mp h with h | h
+          · exact absurd h hnp
+          · exact absurd h hnq
+        · intro h; exact absurd (List.isEmpty_iff.mp he) h
+      · rename_i he
+        constructor
+        · intro _ h; rw [h] at he; simp at he
+        · intro _; simp
+    · rw [turnReqs_keys e, ← hkeys p']
+      split <;> simp [e]
 
-end Discret.Lock
-
-namespace Discret.Lock
-
-/-! ### the outer loop -/
-
-theorem peerLoop_inv {max : Nat} {fuel : Nat} {s s' : State} {g : Option (Ch × Room)}
-    (hi : Inv max s) (ha : 0 < s.avail) (h : peerLoop fuel s = (s', g)) : Inv max s' := by
-  induction fuel generalizing s with
-  | zero => simp only [peerLoop, Prod.mk.injEq] at h; obtain ⟨h1, _⟩ := h; subst h1; exact hi
-  | succ n ih =>
-    unfold peerLoop at h
+theorem scan_inv {s s' : State} {todo sk : List Peer} {g : Option (Ch × Room)}
+    (hi : Inv max (vstate s sk todo)) (ha : 0 < s.avail) (h : scan s todo sk = (s', g)) :
+    Inv max s' := by
+  induction todo generalizing s sk with
+  | nil =>
+    simp only [scan, Prod.mk.injEq] at h
+    obtain ⟨h1, _⟩ := h; subst h1
+    simpa [vstate] using hi
+  | cons p q ih =>
+    simp only [scan] at h
     split at h
-    · simp only [Prod.mk.injEq] at h; obtain ⟨h1, _⟩ := h; subst h1; exact hi
-    · rename_i p q hq
+    · rename_i hl
+      have : p ∈ keys s.reqs := (hi.queueKeys p).mp (by simp [vstate])
+      exact absurd this (lookup_none_iff.mp hl)
+    · rename_i req hl
       split at h
-      · rename_i hl
-        -- impossible under the invariant, but the loop just drops the peer
-        have : p ∈ keys s.reqs := (hi.queueKeys p).mp (hq ▸ List.mem_cons_self)
-        exact absurd this (lookup_none_iff.mp hl)
-      · rename_i req hl
-        split at h
-        · rename_i s1 g1 hb
-          simp only [Prod.mk.injEq] at h; obtain ⟨h1, _⟩ := h; subst h1
-          exact peerBody_inv hi hq ha hb
-        · rename_i s1 hb
-          have hi1 := peerBody_inv hi hq ha hb
-          have ha1 : 0 < s1.avail := by rw [(peerBody_none hb).2]; exact ha
-          exact ih hi1 ha1 h
+      · rename_i r hres
+        simp only [Prod.mk.injEq] at h
+        obtain ⟨h1, _⟩ := h; subst h1
+        have hrl : roomLoop s.locked (!s.dead.contains req.ch) req.rooms.length req.rooms
+            = ((roomLoop s.locked (!s.dead.contains req.ch) req.rooms.length req.rooms).1, some r) := by
+          rw [← hres]
+        obtain ⟨hnl, _, _, _⟩ := roomLoop_some hrl
+        have hqn : (sk ++ p :: q).Nodup := hi.queueNodup
+        have hkeys := hi.queueKeys
+        simp only [vstate] at hkeys
+        have hnp : p ∉ sk := fun h => (List.nodup_append.mp hqn).2.2 p h p List.mem_cons_self rfl
+        have hnq : p ∉ q := (List.nodup_cons.mp (List.nodup_append.mp hqn).2.1).1
+        have hskq : (sk ++ q).Nodup :=
+          List.nodup_append.mpr ⟨(List.nodup_append.mp hqn).1, (List.nodup_cons.mp (List.nodup_append.mp hqn).2.1).2,
+            fun a ha b hb => (List.nodup_append.mp hqn).2.2 a ha b (List.mem_cons_of_mem _ hb)⟩
+        refine ⟨List.nodup_cons.mpr ⟨hnl, hi.lockedNodup⟩, ?_, turnReqs_nodup hi.keysNodup, ?_, ?_⟩
+        · have := hi.count; simp only [vstate] at this; simp only [List.length_cons]; omega
+        · simp only
+          split
+          · exact hskq
+          · rw [← List.append_assoc]
+            refine List.nodup_append.mpr ⟨hskq, by simp, ?_⟩
+            intro a ha b hb
+            simp only [List.mem_singleton] at hb
+            subst hb; intro e; subst e
+            rcases List.mem_append.mp ha with h | h
+            · exact hnp h
+            · exact hnq h
+        · intro p'
+          simp only
+          by_cases e : p' = p
+          · subst e
+            have := turnReqs_key_self (s := s) (p := p') (req := req)
+              (rooms' := (roomLoop s.locked (!s.dead.contains req.ch) req.rooms.length req.rooms).1)
+            simp only [turnReqs] at this
+            rw [this]
+            split
+            · rename_i he
+              constructor
+              · intro h; rcases List.mem_append.mp h with h | h
+                · exact absurd h hnp
+                · exact absurd h hnq
+              · intro h; exact absurd (List.isEmpty_iff.mp he) h
+            · rename_i he
+              constructor
+              · intro _ h; rw [h] at he; simp at he
+              · intro _; simp
+          · have hk := turnReqs_keys (s := s) (p := p) (req := req)
+              (rooms' := (roomLoop s.locked (!s.dead.contains req.ch) req.rooms.length req.rooms).1) e
+            simp only [turnReqs] at hk
+            rw [hk, ← hkeys p']
+            split <;> simp [e]
+      · exact ih (turn_none_inv hi) ha h
 
-theorem peerLoop_sub {max : Nat} {fuel : Nat} {s s' : State} {g : Option (Ch × Room)}
-    (hi : Inv max s) (ha : 0 < s.avail) (h : peerLoop fuel s = (s', g)) : Sub s s' := by
-  induction fuel generalizing s with
-  | zero => simp only [peerLoop, Prod.mk.injEq] at h; obtain ⟨h1, _⟩ := h; subst h1; exact Sub.refl _
-  | succ n ih =>
-    unfold peerLoop at h
+theorem scan_sub {s s' : State} {todo sk : List Peer} {g : Option (Ch × Room)}
+    (hi : Inv max (vstate s sk todo)) (h : scan s todo sk = (s', g)) : Sub s s' := by
+  induction todo generalizing s sk with
+  | nil =>
+    simp only [scan, Prod.mk.injEq] at h
+    obtain ⟨h1, _⟩ := h; subst h1
+    exact ⟨fun _ h => h, fun _ req h => ⟨req, h, rfl, fun _ hx => hx⟩⟩
+  | cons p q ih =>
+    simp only [scan] at h
     split at h
-    · simp only [Prod.mk.injEq] at h; obtain ⟨h1, _⟩ := h; subst h1; exact Sub.refl _
-    · rename_i p q hq
+    · rename_i hl
+      have : p ∈ keys s.reqs := (hi.queueKeys p).mp (by simp [vstate])
+      exact absurd this (lookup_none_iff.mp hl)
+    · rename_i req hl
+      have hsubr := roomLoop_sub (g := (roomLoop s.locked (!s.dead.contains req.ch) req.rooms.length req.rooms).2) rfl
       split at h
-      · rename_i hl
-        have : p ∈ keys s.reqs := (hi.queueKeys p).mp (hq ▸ List.mem_cons_self)
-        exact absurd this (lookup_none_iff.mp hl)
-      · rename_i req hl
-        split at h
-        · rename_i s1 g1 hb
-          simp only [Prod.mk.injEq] at h; obtain ⟨h1, _⟩ := h; subst h1
-          exact peerBody_sub hb hl
-        · rename_i s1 hb
-          have hi1 := peerBody_inv hi hq ha hb
-          have ha1 : 0 < s1.avail := by rw [(peerBody_none hb).2]; exact ha
-          exact (peerBody_sub hb hl).trans (ih hi1 ha1 h)
+      · simp only [Prod.mk.injEq] at h
+        obtain ⟨h1, _⟩ := h; subst h1
+        exact ⟨fun r hr => List.mem_cons_of_mem _ hr, turnReqs_sub hl hsubr⟩
+      · have h1 : Sub s { s with reqs := (turnReqs s p req
+            (roomLoop s.locked (!s.dead.contains req.ch) req.rooms.length req.rooms).1) } :=
+          ⟨fun _ h => h, turnReqs_sub hl hsubr⟩
+        exact h1.trans (ih (turn_none_inv hi) h)
 
-theorem peerLoop_dead {fuel : Nat} {s s' : State} {g : Option (Ch × Room)}
-    (h : peerLoop fuel s = (s', g)) : s'.dead = s.dead := by
-  induction fuel generalizing s with
-  | zero => simp only [peerLoop, Prod.mk.injEq] at h; obtain ⟨h1, _⟩ := h; subst h1; rfl
-  | succ n ih =>
-    unfold peerLoop at h
+theorem scan_dead {s s' : State} {todo sk : List Peer} {g : Option (Ch × Room)}
+    (h : scan s todo sk = (s', g)) : s'.dead = s.dead := by
+  induction todo generalizing s sk with
+  | nil => simp only [scan, Prod.mk.injEq] at h; obtain ⟨h1, _⟩ := h; subst h1; rfl
+  | cons p q ih =>
+    simp only [scan] at h
     split at h
-    · simp only [Prod.mk.injEq] at h; obtain ⟨h1, _⟩ := h; subst h1; rfl
+    · exact ih h
     · split at h
+      · simp only [Prod.mk.injEq] at h; obtain ⟨h1, _⟩ := h; subst h1; rfl
       · have := ih h; simpa using this
-      · split at h
-        · rename_i hb
-          simp only [Prod.mk.injEq] at h; obtain ⟨h1, _⟩ := h; subst h1
-          exact peerBody_dead hb
-        · rename_i hb
-          rw [ih h, peerBody_dead hb]
 
-theorem peerLoop_none {fuel : Nat} {s s' : State} (h : peerLoop fuel s = (s', none)) :
+theorem scan_none {s s' : State} {todo sk : List Peer} (h : scan s todo sk = (s', none)) :
     s'.locked = s.locked ∧ s'.avail = s.avail := by
-  induction fuel generalizing s with
-  | zero => simp only [peerLoop, Prod.mk.injEq, and_true] at h; subst h; exact ⟨rfl, rfl⟩
-  | succ n ih =>
-    unfold peerLoop at h
+  induction todo generalizing s sk with
+  | nil => simp only [scan, Prod.mk.injEq, and_true] at h; subst h; exact ⟨rfl, rfl⟩
+  | cons p q ih =>
+    simp only [scan] at h
     split at h
-    · simp only [Prod.mk.injEq, and_true] at h; subst h; exact ⟨rfl, rfl⟩
+    · exact ih h
     · split at h
+      · simp at h
       · have := ih h; simpa using this
-      · split at h
-        · simp at h
-        · rename_i hb
-          obtain ⟨a, b⟩ := ih h
-          obtain ⟨c, d⟩ := peerBody_none hb
-          exact ⟨a.trans c, b.trans d⟩
 
 /-- what a grant is: a free room, pending on a live channel; it becomes locked and uses one slot -/
-theorem peerLoop_some {max : Nat} {fuel : Nat} {s s' : State} {ch : Ch} {r : Room}
-    (hi : Inv max s) (ha : 0 < s.avail) (h : peerLoop fuel s = (s', some (ch, r))) :
+theorem scan_some {s s' : State} {todo sk : List Peer} {ch : Ch} {r : Room}
+    (hi : Inv max (vstate s sk todo)) (h : scan s todo sk = (s', some (ch, r))) :
     r ∉ s.locked ∧ s'.locked = r :: s.locked ∧ s'.avail = s.avail - 1 ∧ ch ∉ s.dead ∧
       ∃ p req, (p, req) ∈ s.reqs ∧ req.ch = ch ∧ r ∈ req.rooms := by
-  induction fuel generalizing s with
-  | zero => simp [peerLoop] at h
-  | succ n ih =>
-    unfold peerLoop at h
+  induction todo generalizing s sk with
+  | nil => simp [scan] at h
+  | cons p q ih =>
+    simp only [scan] at h
     split at h
-    · simp at h
-    · rename_i p q hq
+    · rename_i hl
+      have : p ∈ keys s.reqs := (hi.queueKeys p).mp (by simp [vstate])
+      exact absurd this (lookup_none_iff.mp hl)
+    · rename_i req hl
+      have hsubr := roomLoop_sub (g := (roomLoop s.locked (!s.dead.contains req.ch) req.rooms.length req.rooms).2) rfl
       split at h
-      · rename_i hl
-        have : p ∈ keys s.reqs := (hi.queueKeys p).mp (hq ▸ List.mem_cons_self)
-        exact absurd this (lookup_none_iff.mp hl)
-      · rename_i req hl
-        split at h
-        · rename_i s1 g1 hb
-          simp only [Prod.mk.injEq, Option.some.injEq] at h
-          obtain ⟨h1, h2⟩ := h; subst h1 h2
-          obtain ⟨a, b, c, d, e, f⟩ := peerBody_some hb
-          exact ⟨a, b, c, e, p, req, lookup_some_mem hl, d.symm, f⟩
-        · rename_i s1 hb
-          have hi1 := peerBody_inv hi hq ha hb
-          obtain ⟨hl1, hav1⟩ := peerBody_none hb
-          have ha1 : 0 < s1.avail := by rw [hav1]; exact ha
-          obtain ⟨a, b, c, d, p', req', hm, hc, hr⟩ := ih hi1 ha1 h
-          have hs := peerBody_sub hb hl
-          obtain ⟨req0, hm0, hc0, hsub0⟩ := hs.2 p' req' hm
-          refine ⟨hl1 ▸ a, by rw [b, hl1], by rw [c, hav1], ?_, p', req0, hm0, hc0 ▸ hc, hsub0 r hr⟩
-          rw [← peerBody_dead hb]; exact d
+      · rename_i r' hres
+        simp only [Prod.mk.injEq, Option.some.injEq] at h
+        obtain ⟨h1, h2, h3⟩ := h; subst h1 h2 h3
+        have hrl : roomLoop s.locked (!s.dead.contains req.ch) req.rooms.length req.rooms
+            = ((roomLoop s.locked (!s.dead.contains req.ch) req.rooms.length req.rooms).1, some r') := by
+          rw [← hres]
+        obtain ⟨a, b, c, _⟩ := roomLoop_some hrl
+        exact ⟨a, rfl, rfl, by simpa using b, p, req, lookup_some_mem hl, rfl, c⟩
+      · obtain ⟨a, b, c, d, p', req', hm, hc, hr⟩ := ih (turn_none_inv hi) h
+        obtain ⟨req0, hm0, hc0, hsub0⟩ := turnReqs_sub hl hsubr p' req' hm
+        exact ⟨a, b, c, d, p', req0, hm0, hc0 ▸ hc, hsub0 r hr⟩
 
-/-- a full pass that grants nothing: every pending room is locked afterwards.
-    `un` are the peers not yet visited (at the back of the queue), `done` the visited ones. -/
-theorem peerLoop_none_settled {max : Nat} {fuel : Nat} {s s' : State} {un done : List Peer}
-    (hi : Inv max s) (ha : 0 < s.avail) (h : peerLoop fuel s = (s', none))
-    (hq : s.queue = un ++ done) (hf : un.length ≤ fuel)
-    (hd : ∀ p ∈ done, ∀ req, (p, req) ∈ s.reqs → ∀ r ∈ req.rooms, r ∈ s.locked) :
-    Settled s' := by
-  induction fuel generalizing s un done with
-  | zero =>
-    have : un = [] := List.eq_nil_of_length_eq_zero (Nat.le_zero.mp hf)
-    subst this
-    simp only [peerLoop, Prod.mk.injEq, and_true] at h
-    subst h
+/-- a full scan that grants nothing: every pending room is locked afterwards -/
+theorem scan_none_settled {s s' : State} {todo sk : List Peer}
+    (hi : Inv max (vstate s sk todo)) (h : scan s todo sk = (s', none))
+    (hd : ∀ p ∈ sk, ∀ req, (p, req) ∈ s.reqs → ∀ r ∈ req.rooms, r ∈ s.locked) : Settled s' := by
+  induction todo generalizing s sk with
+  | nil =>
+    simp only [scan, Prod.mk.injEq, and_true] at h; subst h
     intro p req hm
-    have : p ∈ s.queue := (hi.queueKeys p).mpr (List.mem_map_of_mem (f := Prod.fst) hm)
-    rw [hq] at this
+    have : p ∈ sk ++ [] := (hi.queueKeys p).mpr (List.mem_map_of_mem (f := Prod.fst) hm)
     exact hd p (by simpa using this) req hm
-  | succ n ih =>
-    unfold peerLoop at h
+  | cons p q ih =>
+    simp only [scan] at h
     split at h
-    · rename_i hq0
-      simp only [Prod.mk.injEq, and_true] at h; subst h
-      intro p req hm
-      have : p ∈ s.queue := (hi.queueKeys p).mpr (List.mem_map_of_mem (f := Prod.fst) hm)
-      rw [hq0] at this; cases this
-    · rename_i p q hq0
+    · rename_i hl
+      have : p ∈ keys s.reqs := (hi.queueKeys p).mp (by simp [vstate])
+      exact absurd this (lookup_none_iff.mp hl)
+    · rename_i req hl
+      have hsubr := roomLoop_sub (g := (roomLoop s.locked (!s.dead.contains req.ch) req.rooms.length req.rooms).2) rfl
       split at h
-      · rename_i hl
-        have : p ∈ keys s.reqs := (hi.queueKeys p).mp (hq0 ▸ List.mem_cons_self)
-        exact absurd this (lookup_none_iff.mp hl)
-      · rename_i req hl
-        split at h
-        · simp at h
-        · rename_i s1 hb
-          have hi1 := peerBody_inv hi hq0 ha hb
-          obtain ⟨hl1, hav1⟩ := peerBody_none hb
-          have ha1 : 0 < s1.avail := by rw [hav1]; exact ha
-          have hqn : (p :: q).Nodup := hq0 ▸ hi.queueNodup
-          have hpq : p ∉ q := (List.nodup_cons.mp hqn).1
-          -- the rooms that remain for `p` after its turn are all locked
-          have hp_locked : ∀ req', (p, req') ∈ s1.reqs → ∀ r ∈ req'.rooms, r ∈ s1.locked := by
-            intro req' hm r hr
-            rw [hl1]
-            -- unfold the body to reach the room loop
-            have hb' := hb
-            unfold peerBody at hb'
-            simp only at hb'
-            split at hb'
-            · simp at hb'
-            · rename_i hres
-              simp only [Prod.mk.injEq, and_true] at hb'
-              subst hb'
-              simp only at hm
-              split at hm
-              · exact absurd (mem_erase.mp hm).2 (fun h => h rfl)
-              · rcases List.mem_cons.mp hm with h1 | h1
-                · simp only [Prod.mk.injEq, true_and] at h1
-                  subst h1
-                  simp only at hr
-                  have hrl : roomLoop s.locked (!s.dead.contains req.ch) req.rooms.length (req.rooms ++ [])
-                      = ((roomLoop s.locked (!s.dead.contains req.ch) req.rooms.length req.rooms).1, none) := by
-                    rw [List.append_nil, ← hres]
-                  exact roomLoop_none_locked hrl (Nat.le_refl _) (by intro x hx; cases hx) r hr
-                · exact absurd (mem_erase.mp h1).2 (fun h => h rfl)
-          -- other peers keep their requests
-          have hother : ∀ p' req', p' ≠ p → (p', req') ∈ s1.reqs → (p', req') ∈ s.reqs := by
-            intro p' req' hne hm
-            rcases peerBody_reqs hb hm with ⟨_, h2⟩ | ⟨h1, _⟩
-            · exact h2
-            · exact absurd h1 hne
-          cases un with
-          | nil =>
-            -- every peer has been visited already; `p` is visited again
-            simp only [List.nil_append] at hq
-            rcases peerBody_queue hb with ⟨hq1, hk1⟩ | ⟨hq1, hk1⟩
-            · refine ih (un := []) (done := q) hi1 ha1 h (by simpa using hq1) (Nat.zero_le _) ?_
-              intro p' hp' req' hm r hr
-              have hne : p' ≠ p := fun e => hpq (e ▸ hp')
-              rw [hl1]
-              exact hd p' (by rw [← hq, hq0]; exact List.mem_cons_of_mem _ hp') req' (hother p' req' hne hm) r hr
-            · refine ih (un := []) (done := q ++ [p]) hi1 ha1 h (by simpa using hq1) (Nat.zero_le _) ?_
-              intro p' hp' req' hm r hr
-              by_cases hne : p' = p
-              · subst hne; exact hp_locked req' hm r hr
-              · rw [hl1]
-                have : p' ∈ q := by simpa [hne] using hp'
-                exact hd p' (by rw [← hq, hq0]; exact List.mem_cons_of_mem _ this) req' (hother p' req' hne hm) r hr
-          | cons u un' =>
-            simp only [List.cons_append] at hq
-            rw [hq0] at hq
-            simp only [List.cons.injEq] at hq
-            obtain ⟨hpu, hqq⟩ := hq
-            subst hpu
-            simp only [List.length_cons] at hf
-            rcases peerBody_queue hb with ⟨hq1, hk1⟩ | ⟨hq1, hk1⟩
-            · refine ih (un := un') (done := done) hi1 ha1 h (by rw [hq1, hqq]) (Nat.le_of_succ_le_succ hf) ?_
-              intro p' hp' req' hm r hr
-              have hne : p' ≠ p := by
-                intro e; subst e
-                exact hpq (hqq ▸ List.mem_append_right _ hp')
-              rw [hl1]
-              exact hd p' hp' req' (hother p' req' hne hm) r hr
-            · refine ih (un := un') (done := done ++ [p]) hi1 ha1 h
-                (by rw [hq1, hqq, List.append_assoc]) (Nat.le_of_succ_le_succ hf) ?_
-              intro p' hp' req' hm r hr
-              by_cases hne : p' = p
-              · subst hne; exact hp_locked req' hm r hr
-              · rw [hl1]
-                have : p' ∈ done := by simpa [hne] using hp'
-                exact hd p' this req' (hother p' req' hne hm) r hr
+      · simp at h
+      · rename_i hres
+        refine ih (turn_none_inv hi) h ?_
+        intro p' hp' req' hm r hr
+        simp only at hm ⊢
+        rcases turnReqs_mem hsubr hm with ⟨hne, hm0⟩ | ⟨he, _, hrooms, _, _⟩
+        · have hp'sk : p' ∈ sk := by
+            split at hp'
+            · exact hp'
+            · rcases List.mem_append.mp hp' with h | h
+              · exact h
+              · simp only [List.mem_singleton] at h; exact absurd h hne
+          exact hd p' hp'sk req' hm0 r hr
+        · -- the rooms that remain for `p` after its turn are all locked
+          rw [hrooms] at hr
+          have hrl : roomLoop s.locked (!s.dead.contains req.ch) req.rooms.length (req.rooms ++ [])
+              = ((roomLoop s.locked (!s.dead.contains req.ch) req.rooms.length req.rooms).1, none) := by
+            rw [List.append_nil, ← hres]
+          exact roomLoop_none_locked hrl (Nat.le_refl _) (by intro x hx; cases hx) r hr
 
 /-- with a live channel and no grant, a pending request keeps its rooms -/
-theorem peerLoop_none_live_keeps {max : Nat} {fuel : Nat} {s s' : State}
-    (hi : Inv max s) (ha : 0 < s.avail) (h : peerLoop fuel s = (s', none))
+theorem scan_none_live_keeps {s s' : State} {todo sk : List Peer}
+    (hi : Inv max (vstate s sk todo)) (h : scan s todo sk = (s', none))
     {p : Peer} {req : Req} (hm : (p, req) ∈ s.reqs) (hlive : req.ch ∉ s.dead)
     {x : Room} (hx : x ∈ req.rooms) :
     ∃ req', (p, req') ∈ s'.reqs ∧ req'.ch = req.ch ∧ x ∈ req'.rooms := by
-  induction fuel generalizing s req with
-  | zero =>
-    simp only [peerLoop, Prod.mk.injEq, and_true] at h; subst h
+  induction todo generalizing s sk req with
+  | nil =>
+    simp only [scan, Prod.mk.injEq, and_true] at h; subst h
     exact ⟨req, hm, rfl, hx⟩
-  | succ n ih =>
-    unfold peerLoop at h
+  | cons p0 q ih =>
+    simp only [scan] at h
     split at h
-    · simp only [Prod.mk.injEq, and_true] at h; subst h
-      exact ⟨req, hm, rfl, hx⟩
-    · rename_i p0 q hq0
+    · rename_i hl
+      have : p0 ∈ keys s.reqs := (hi.queueKeys p0).mp (by simp [vstate])
+      exact absurd this (lookup_none_iff.mp hl)
+    · rename_i req0 hl
       split at h
-      · rename_i hl
-        have : p0 ∈ keys s.reqs := (hi.queueKeys p0).mp (hq0 ▸ List.mem_cons_self)
-        exact absurd this (lookup_none_iff.mp hl)
-      · rename_i req0 hl
-        split at h
-        · simp at h
-        · rename_i s1 hb
-          have hi1 := peerBody_inv hi hq0 ha hb
-          obtain ⟨hl1, hav1⟩ := peerBody_none hb
-          have ha1 : 0 < s1.avail := by rw [hav1]; exact ha
-          have hd1 := peerBody_dead hb
-          -- the request of `p` after this iteration
-          have : ∃ req1, (p, req1) ∈ s1.reqs ∧ req1.ch = req.ch ∧ x ∈ req1.rooms := by
-            by_cases hpp : p = p0
-            · subst hpp
-              -- `req0 = req` by uniqueness of keys
-              have hm0 := lookup_some_mem hl
-              have hreq : req0 = req := by
-                have hn := hi.keysNodup
-                clear h hb
-                generalize s.reqs = l at hm hm0 hn
-                induction l with
-                | nil => cases hm
-                | cons a t iht =>
-                  simp only [keys, List.map_cons, List.nodup_cons] at hn
-                  rcases List.mem_cons.mp hm with e1 | e1 <;> rcases List.mem_cons.mp hm0 with e2 | e2
-                  · rw [← e1] at e2; exact (Prod.mk.inj e2).2
-                  · exact absurd (List.mem_map_of_mem (f := Prod.fst) e2) (by rw [← e1] at hn; exact hn.1)
-                  · exact absurd (List.mem_map_of_mem (f := Prod.fst) e1) (by rw [← e2] at hn; exact hn.1)
-                  · exact iht e1 e2 hn.2
-              subst hreq
-              have hb' := hb
-              unfold peerBody at hb'
-              simp only at hb'
-              split at hb'
-              · simp at hb'
-              · rename_i hres
-                simp only [Prod.mk.injEq, and_true] at hb'
-                have hlv : (!s.dead.contains req0.ch) = true := by simpa using hlive
-                have hrl : roomLoop s.locked true req0.rooms.length req0.rooms
-                    = ((roomLoop s.locked true req0.rooms.length req0.rooms).1, none) := by
-                  rw [hlv] at hres; rw [← hres]
-                have hk := roomLoop_none_live_keeps hrl
-                rw [hlv] at hb'
-                subst hb'
-                have hne : ¬ (roomLoop s.locked true req0.rooms.length req0.rooms).1.isEmpty = true := by
-                  intro he
-                  have := hk x hx
-                  rw [List.isEmpty_iff.mp he] at this; cases this
-                simp only [hne]
-                exact ⟨_, List.mem_cons_self, rfl, hk x hx⟩
-            · refine ⟨req, ?_, rfl, hx⟩
-              have hb' := hb
-              unfold peerBody at hb'
-              simp only at hb'
-              split at hb'
-              · simp at hb'
-              · simp only [Prod.mk.injEq, and_true] at hb'
-                subst hb'
-                simp only
-                split
-                · exact mem_erase.mpr ⟨hm, hpp⟩
-                · exact List.mem_cons_of_mem _ (mem_erase.mpr ⟨hm, hpp⟩)
-          obtain ⟨req1, hm1, hc1, hk1⟩ := this
-          obtain ⟨req', hm', hc', hk'⟩ := ih hi1 ha1 h hm1 (by rw [hd1, hc1]; exact hlive) hk1
-          exact ⟨req', hm', hc'.trans hc1, hk'⟩
+      · simp at h
+      · rename_i hres
+        have hstep : ∃ req1, (p, req1) ∈ turnReqs s p0 req0
+              (roomLoop s.locked (!s.dead.contains req0.ch) req0.rooms.length req0.rooms).1 ∧
+            req1.ch = req.ch ∧ x ∈ req1.rooms := by
+          by_cases hpp : p = p0
+          · subst hpp
+            have hreq : req0 = req := mem_uniq hi.keysNodup (lookup_some_mem hl) hm
+            subst hreq
+            have hlv : (!s.dead.contains req0.ch) = true := by simpa using hlive
+            have hrl : roomLoop s.locked true req0.rooms.length req0.rooms
+                = ((roomLoop s.locked true req0.rooms.length req0.rooms).1, none) := by
+              rw [hlv] at hres; rw [← hres]
+            have hk := roomLoop_none_live_keeps hrl
+            rw [hlv]
+            have hne : ¬ (roomLoop s.locked true req0.rooms.length req0.rooms).1.isEmpty = true := by
+              intro he
+              have := hk x hx
+              rw [List.isEmpty_iff.mp he] at this; cases this
+            simp only [turnReqs, hne]
+            exact ⟨_, List.mem_cons_self, rfl, hk x hx⟩
+          · refine ⟨req, ?_, rfl, hx⟩
+            unfold turnReqs
+            split
+            · exact mem_erase.mpr ⟨hm, hpp⟩
+            · exact List.mem_cons_of_mem _ (mem_erase.mpr ⟨hm, hpp⟩)
+        obtain ⟨req1, hm1, hc1, hk1⟩ := hstep
+        obtain ⟨req', hm', hc', hk'⟩ :=
+          ih (turn_none_inv hi) h hm1 (by simp only; rw [hc1]; exact hlive) hk1
+        exact ⟨req', hm', hc'.trans hc1, hk'⟩
+
+end scan
 
 end Discret.Lock
 
@@ -765,18 +651,39 @@ namespace Discret.Lock
 
 /-! ### `acquire`, `acquireN` -/
 
+theorem vstate_acquire {max : Nat} {s : State} (hi : Inv max s) : Inv max (vstate s [] s.queue) := by
+  simpa [vstate] using hi
+
 theorem acquire_inv {max : Nat} {s s' : State} {g : Option (Ch × Room)}
     (hi : Inv max s) (ha : 0 < s.avail) (h : acquire s = (s', g)) : Inv max s' :=
-  peerLoop_inv hi ha h
+  scan_inv (vstate_acquire hi) ha h
 
 theorem acquire_sub {max : Nat} {s s' : State} {g : Option (Ch × Room)}
-    (hi : Inv max s) (ha : 0 < s.avail) (h : acquire s = (s', g)) : Sub s s' :=
-  peerLoop_sub hi ha h
+    (hi : Inv max s) (_ha : 0 < s.avail) (h : acquire s = (s', g)) : Sub s s' :=
+  scan_sub (vstate_acquire hi) h
 
 theorem acquire_none_settled {max : Nat} {s s' : State}
-    (hi : Inv max s) (ha : 0 < s.avail) (h : acquire s = (s', none)) : Settled s' :=
-  peerLoop_none_settled (un := s.queue) (done := []) hi ha h (by simp) (Nat.le_refl _)
-    (by intro p hp; cases hp)
+    (hi : Inv max s) (_ha : 0 < s.avail) (h : acquire s = (s', none)) : Settled s' :=
+  scan_none_settled (vstate_acquire hi) h (by intro p hp; cases hp)
+
+theorem acquire_dead {s s' : State} {g : Option (Ch × Room)} (h : acquire s = (s', g)) :
+    s'.dead = s.dead := scan_dead h
+
+theorem acquire_none {s s' : State} (h : acquire s = (s', none)) :
+    s'.locked = s.locked ∧ s'.avail = s.avail := scan_none h
+
+theorem acquire_some {max : Nat} {s s' : State} {ch : Ch} {r : Room}
+    (hi : Inv max s) (_ha : 0 < s.avail) (h : acquire s = (s', some (ch, r))) :
+    r ∉ s.locked ∧ s'.locked = r :: s.locked ∧ s'.avail = s.avail - 1 ∧ ch ∉ s.dead ∧
+      ∃ p req, (p, req) ∈ s.reqs ∧ req.ch = ch ∧ r ∈ req.rooms :=
+  scan_some (vstate_acquire hi) h
+
+theorem acquire_none_live_keeps {max : Nat} {s s' : State}
+    (hi : Inv max s) (_ha : 0 < s.avail) (h : acquire s = (s', none))
+    {p : Peer} {req : Req} (hm : (p, req) ∈ s.reqs) (hlive : req.ch ∉ s.dead)
+    {x : Room} (hx : x ∈ req.rooms) :
+    ∃ req', (p, req') ∈ s'.reqs ∧ req'.ch = req.ch ∧ x ∈ req'.rooms :=
+  scan_none_live_keeps (vstate_acquire hi) h hm hlive hx
 
 /-- the no-missed-wake-up invariant: spare capacity implies nobody waits for a free room -/
 def NoMissed (s : State) : Prop := s.avail = 0 ∨ Settled s
@@ -801,10 +708,10 @@ theorem acquireN_spec {max : Nat} {n : Nat} {s s2 : State} {gs : List (Ch × Roo
     have hpos : 0 < s.avail := by omega
     have hi1 := acquire_inv hi hpos ha1
     have hs1 := acquire_sub hi hpos ha1
-    have hd1 : s1.dead = s.dead := peerLoop_dead ha1
+    have hd1 : s1.dead = s.dead := acquire_dead ha1
     cases g with
     | none =>
-      obtain ⟨hl, hav⟩ := peerLoop_none ha1
+      obtain ⟨hl, hav⟩ := acquire_none ha1
       have hset := acquire_none_settled hi hpos ha1
       obtain ⟨a, b, c, _, e, f⟩ := ih hi1 (by omega) ha2
       refine ⟨a, hs1.trans b, c.trans hd1, Or.inr (hset.of_sub b), by simpa using e, ?_⟩
@@ -814,7 +721,7 @@ theorem acquireN_spec {max : Nat} {n : Nat} {s s2 : State} {gs : List (Ch × Roo
       exact ⟨hl ▸ f1, f2, hd1 ▸ f3⟩
     | some cr =>
       obtain ⟨ch, r⟩ := cr
-      obtain ⟨p1, p2, p3, p4, _⟩ := peerLoop_some hi hpos ha1
+      obtain ⟨p1, p2, p3, p4, _⟩ := acquire_some hi hpos ha1
       obtain ⟨a, b, c, d, e, f⟩ := ih hi1 (by omega) ha2
       refine ⟨a, hs1.trans b, c.trans hd1, ?_, ?_, ?_⟩
       · rcases d with d | d
@@ -933,7 +840,7 @@ theorem step_noMissed {max : Nat} {s : State} (hi : Inv max s) (hn : NoMissed s)
       | none => right; exact acquire_none_settled h1 hpos ha
       | some cr =>
         obtain ⟨ch, r'⟩ := cr
-        obtain ⟨p1, p2, p3, _, p', req, hm, _, hrr⟩ := peerLoop_some h1 hpos ha
+        obtain ⟨p1, p2, p3, _, p', req, hm, _, hrr⟩ := acquire_some h1 hpos ha
         have hsub := acquire_sub h1 hpos ha
         simp only [unlockPre] at p1 p2 p3 hm
         rcases hn with hn | hn
@@ -988,7 +895,7 @@ theorem step_grants {max : Nat} {s : State} (hi : Inv max s) (op : Op) :
       | none => simp
       | some cr =>
         obtain ⟨ch, r'⟩ := cr
-        obtain ⟨p1, p2, _, p4, _⟩ := peerLoop_some h1 hpos ha
+        obtain ⟨p1, p2, _, p4, _⟩ := acquire_some h1 hpos ha
         simp only [unlockPre] at p1 p2 p4
         refine ⟨by simp, ?_⟩
         intro g hg
@@ -1038,9 +945,9 @@ theorem unlock_progress {max : Nat} {s : State} (hi : Inv max s) {r : Room} (hr 
     exfalso
     have hset := acquire_none_settled h1 hpos ha
     obtain ⟨req', hm', _, hx'⟩ :=
-      peerLoop_none_live_keeps h1 hpos ha (p := p) (req := req) hm hlive hw
+      acquire_none_live_keeps h1 hpos ha (p := p) (req := req) hm hlive hw
     have : r ∈ s2.locked := hset p req' hm' r hx'
-    rw [(peerLoop_none ha).1] at this
+    rw [(acquire_none ha).1] at this
     simp only [unlockPre] at this
     exact (List.Nodup.not_mem_erase hi.lockedNodup) this
 
@@ -1068,12 +975,9 @@ theorem acquire_head_of_line {s : State} {p : Peer} {q : List Peer} {req : Req}
     ∃ s' r, acquire s = (s', some (req.ch, r)) := by
   unfold acquire
   rw [hq]
-  simp only [List.length_cons]
-  unfold peerLoop
-  simp only [hq, hl]
+  simp only [scan, hl]
   obtain ⟨rooms', r', hrl⟩ := roomLoop_live_some hfree
   have hlv : (!s.dead.contains req.ch) = true := by simpa using hlive
-  unfold peerBody
   simp only [hlv, hrl]
   exact ⟨_, _, rfl⟩
 
@@ -1100,20 +1004,20 @@ theorem acquire_spec {max : Nat} {s s' : State} {g : Option (Ch × Room)}
     s'.dead = s.dead ∧
     (∀ r, r ∈ s'.locked → r ∈ s.locked ∨ ∃ ch, g = some (ch, r)) ∧
     (∀ ch r, g = some (ch, r) → ∃ p req, (p, req) ∈ s.reqs ∧ req.ch = ch) := by
-  refine ⟨peerLoop_dead h, ?_, ?_⟩
+  refine ⟨acquire_dead h, ?_, ?_⟩
   · intro r hr
     cases g with
-    | none => left; rw [← (peerLoop_none h).1]; exact hr
+    | none => left; rw [← (acquire_none h).1]; exact hr
     | some cr =>
       obtain ⟨ch, r'⟩ := cr
-      obtain ⟨_, p2, _⟩ := peerLoop_some hi ha h
+      obtain ⟨_, p2, _⟩ := acquire_some hi ha h
       rw [p2] at hr
       rcases List.mem_cons.mp hr with e | e
       · right; exact ⟨ch, by rw [e]⟩
       · left; exact e
   · intro ch r hg
     subst hg
-    obtain ⟨_, _, _, _, p, req, hm, hc, _⟩ := peerLoop_some hi ha h
+    obtain ⟨_, _, _, _, p, req, hm, hc, _⟩ := acquire_some hi ha h
     exact ⟨p, req, hm, hc⟩
 
 theorem acquireN_spec2 {max : Nat} {n : Nat} {s s2 : State} {gs : List (Ch × Room)}
@@ -1139,10 +1043,10 @@ theorem acquireN_spec2 {max : Nat} {n : Nat} {s s2 : State} {gs : List (Ch × Ro
     obtain ⟨_, q2, q3⟩ := acquire_spec hi hpos ha1
     have hav : n ≤ s1.avail := by
       cases g with
-      | none => rw [(peerLoop_none ha1).2]; omega
+      | none => rw [(acquire_none ha1).2]; omega
       | some cr =>
         obtain ⟨ch, r⟩ := cr
-        obtain ⟨_, _, p3, _⟩ := peerLoop_some hi hpos ha1
+        obtain ⟨_, _, p3, _⟩ := acquire_some hi hpos ha1
         omega
     obtain ⟨a, b⟩ := ih hi1 hav ha2
     constructor
